@@ -290,8 +290,10 @@ def main() -> int:
         "wall_s": round(wall, 1),
         "violations": len(violations),
     }
-    (ROOT / "evidence").mkdir(exist_ok=True)
-    (ROOT / "evidence" / f"{pid}.json").write_text(json.dumps(ev, indent=1, default=str))
+    # runs against a deliberately changed tree (seeded-change regression) write their evidence elsewhere
+    evdir = Path(os.environ["VERIF_EVIDENCE_DIR"]) if os.environ.get("VERIF_EVIDENCE_DIR") else ROOT / "evidence"
+    evdir.mkdir(parents=True, exist_ok=True)
+    (evdir / f"{pid}.json").write_text(json.dumps(ev, indent=1, default=str))
     print(f"{pid} {a.tier}: {n_confirmed}/{n_queries} decided-holds, {len(inconclusive)} inconclusive, "
           f"{len(known_lines)} known findings, {len(violations)} violations, {len(harness_errors)} harness errors, "
           f"{n_paths} paths, {wall:.0f}s")
